@@ -87,6 +87,8 @@ def degenerate_case(case):
     pol = r.choice(["on_t_sample", "on_t_sample", "on_interval", "on_iteration", "no_sampling"])
     ts = sorted(r.choice([0.0, 0.01, 0.02, 0.035, 0.05]) for _ in range(r.randint(1, 5)))
     tmax = r.choice(["default", 0.0, 0.02, 0.08])
+    if r.random() < 0.12:
+        ts, tmax = [], r.choice([0.02, 0.08])        # no requested time at all (records by hand or by another policy), explicit end
     isp = r.choice(["auto", "none", "redist", "Poisson"])
     kw = dict(system=system, t_sample=ts, time_step=0.01, sampling_policy=pol, sampling_interval=r.choice([0.005, 0.02, 0.02, 1e-22, 1e-300]),
               rng_seed=r.randrange(2 ** 31), init_state_processing=isp)
@@ -115,7 +117,11 @@ def degenerate_case(case):
             e.get_output()
         else:
             e.get_progress()
+    if r.random() < 0.3:
+        e.get_progress()
     e.iterate_n(40)
+    if r.random() < 0.3:
+        e.get_progress()
     out = e.get_output()
     e.finalize()
     if r.random() < 0.3:
